@@ -99,6 +99,21 @@ func newMultiTermSearcherInternal(ctx context.Context, indexReader index.IndexRe
 	options search.SearcherOptions, limit bool) (
 	search.Searcher, error) {
 
+	// the candidate terms come from the term dictionary, which keeps terms
+	// that occur only in deleted documents until a merge drops them. Such a
+	// term matches nothing, but as a clause it still changed the query norm
+	// and the coord factor, so the same content scored differently before
+	// and after merging.
+	live := searchers[:0]
+	for _, s := range searchers {
+		if s.Count() == 0 {
+			_ = s.Close()
+			continue
+		}
+		live = append(live, s)
+	}
+	searchers = live
+
 	// build disjunction searcher of these ranges
 	searcher, err := newDisjunctionSearcher(ctx, indexReader, searchers, 0, options,
 		limit)
